@@ -6,6 +6,7 @@ JD_2p1  == << [pids |-> <<12, 11>>, bg |-> FALSE], [pids |-> <<21>>, bg |-> TRUE
 JD_2p2  == << [pids |-> <<12, 11>>, bg |-> FALSE], [pids |-> <<22, 21>>, bg |-> TRUE] >>
 JD_1p2b == << [pids |-> <<31>>, bg |-> TRUE], [pids |-> <<12, 11>>, bg |-> FALSE] >>
 JD_3    == << [pids |-> <<12, 11>>, bg |-> FALSE], [pids |-> <<21>>, bg |-> TRUE], [pids |-> <<32, 31, 33>>, bg |-> TRUE] >>
-AllLegacy == {"count", "bsearch", "stale", "sets", "fgcont", "contall", "nopoll"}
+AllLegacy == {"count", "bsearch", "stale", "sets", "fgcont", "contall", "nopoll", "nodrain"}
+NoDrain   == {"nodrain"}
 NoLegacy  == {}
 =============================================================================
